@@ -54,6 +54,21 @@ TEXT = {
         "note": "Exactness on conflict-free problems is checked through C07's preferred closure. Universal statement for the solver not yet proved.",
         "technique": "executable causality oracle over the real call log + Lean proof of cache idempotence + exact cache correspondence",
     },
+    "C10": {
+        "text": "Exploration with verified oracles (claimed partial). The real solver runs with an asynchronous provider whose get_candidates / get_dependencies (optionally filter/sort) futures are completed one at a time by a hand-written single-threaded executor following FIFO, LIFO or seeded random schedules; on every run the answer is checked with the verified validity oracle, the verdict against the verified reference decision procedure (so async and sync verdicts agree), obtained answers must never be requested again, and the executor reports a deadlock if the solver is pending while nothing is outstanding. A genuine termination defect after cancellation was found by the reuse-async family and repaired.",
+        "note": "No Lean model of the FuturesUnordered / Event protocol yet; real executors' waker delivery is outside any model.",
+        "technique": "schedule exploration of the real async solver with verified (Lean) oracles; no scheduler theorem yet",
+    },
+    "C11": {
+        "text": "Exploration with an executable oracle. At every quiescent point of every explored schedule the harness records the set of outstanding provider requests; the oracle requires every get_candidates request already implied by dependency information the solver has received to be outstanding or answered (root fan-out at the first quiescent point included).",
+        "note": "No theorem; a serialising await changes the recorded pending sets and is caught.",
+        "technique": "pending-set oracle at quiescent points over explored schedules (exploration)",
+    },
+    "C13": {
+        "text": "Proof for the checked model + correspondence of whole histories. Lean: for every finite history of solves on one solver (any problems, any earlier outcomes including Cancelled and Unsolvable, any cache contents, any cancellation plan, any fuel) every solution returned is valid (C01) and supported (C05) and every Unsolvable verdict is sound (C02) - because the theorems about solveChecked hold for every initial solver state. Tie: histories of 2-4 solves (with transient cancellations at random polls / provider requests) are run on the real solver and on MDet and must agree exactly, including the provider call log across solves. Per run: no refetch of obtained metadata; async histories must not deadlock after a cancellation with requests in flight (defect found and fixed).",
+        "note": "The refinement gap (checkFailed never occurs) and termination are checked per run, not proved.",
+        "technique": "Lean 4 induction over histories of the checked model + exact multi-solve correspondence + async reuse exploration",
+    },
     "C12": {
         "text": "Partial proof + exact correspondence + per-run oracles. Lean (model MDet): a poll of should_cancel_with_value that sees the signal aborts with exactly that value, nothing else is logged, and the uncached get_candidates / get_dependencies it guards is never issued; a poll that does not see it has no effect. The harness measures the uncancelled run of each generated case and draws a plan from it (signal up at poll k for any k incl. never; signal raised while provider request j is served; persistent or transient), runs the real solver and the model under the plan and requires identical results, identical Cancelled values and identical provider call logs including every poll in order. Oracles on the implementation's log: Cancelled with the value seen, no provider request after observation or after the signal went up, a persistent signal is never answered with a solution or a conflict, no spurious Cancelled.",
         "note": "Sync runtime here; cancellation while async requests are in flight is exercised by the async/reuse families (C10, C13). The universal statement for the whole solve loop is tied by correspondence, not proved.",
